@@ -136,6 +136,24 @@ def build():
                         ("write_certificate", ["C02", "C13"]), ("check_files", ["C06"]),
                         ("account_files_exists", ["C11"]), ("certificate_files_exists", ["C06"])]:
         u.verify(S, name, "storage", props=props, fns={name: c[name]} if name in c else {name: FnSpec(ret="r")})
+    # --- acme_proto/certificate.rs: where the key pair of an issuance comes from
+    u.module("certificate", "use crate::*;\nuse crate::storage::FileManager;\nuse crate::acme_common::crypto::KeyType;")
+    u.raw("certificate", "pub struct Certificate { pub key_type: KeyType, pub kp_reuse: bool, pub file_manager: FileManager }\n", trusted=True)
+    u.module("acme_proto", "")
+    u.module("acme_proto::certificate", "use crate::*;\nuse crate::certificate::Certificate;\nuse crate::storage;\nuse crate::storage::{FileType, file_path_spec};\n"
+             "use crate::acme_common::crypto::{gen_keypair, KeyPair, key_pem, pem_key};\nuse crate::acme_common::error::Error;")
+    u.ghost_call("set_keypair", quals=("storage",))
+    u.ghost_call("get_keypair", quals=("storage",))
+    PCF = "acmed/src/acme_proto/certificate.rs"
+    key_ok = """
+    ensures """ + FS_FRAME + """
+        // the key pair handed to the CSR is the key in the key file: read from it, or generated and written to it
+        r matches Ok(k) ==> final(w).fs.files.contains_key(file_path_spec(cert.file_manager, FileType::PrivateKey))
+            && (final(w).fs.files[file_path_spec(cert.file_manager, FileType::PrivateKey)] == key_pem(k)
+                || pem_key(final(w).fs.files[file_path_spec(cert.file_manager, FileType::PrivateKey)]) == Some(k)), //@C01.key_pair_is_the_key_in_the_key_file
+"""
+    for name in ["gen_key_pair", "read_key_pair", "get_key_pair"]:
+        u.verify(PCF, name, "acme_proto::certificate", props=["C01", "C03"], fns={name: FnSpec(ret="r", ghost=True, sig=key_ok)})
     return u
 
 
